@@ -461,6 +461,31 @@ Fixpoint weakly_increasing (l : list F) : bool :=
   | a :: ((b :: _) as r) => o_le o a b && weakly_increasing r
   | _ => true
   end.
+
+(* ---- MaskedPhotonSourceSpectrum ------------------------------------------------------------
+   The constructor bins samples of the unmasked spectrum (bin i = [freq_i, freq_{i+1})), multiplies bin i by
+   the mask, and then runs "make cumulative" and "normalize".  w is the list of masked bin values.
+   masked_running acc w: entry i is acc + w_0 + ... + w_{i-1}, i.e. the weight BELOW freq_i, so the
+   distribution is 0 at the lowest frequency; get_random_frequency is sample_linear on (freq, masked_cdf w). *)
+Fixpoint masked_running (acc : F) (w : list F) : list F :=
+  match w with
+  | [] => []
+  | x :: r => acc :: masked_running (acc + x) r
+  end.
+Definition masked_cdf (w : list F) : list F :=
+  let c := masked_running zero w in
+  let norm_inv := one / at_ c (length c - 1) in
+  map (fun v => v * norm_inv) c.
+(* the construction of the pinned commit: entry i also contained bin i itself (kept for the refutation) *)
+Fixpoint masked_running_incl (acc : F) (w : list F) : list F :=
+  match w with
+  | [] => []
+  | x :: r => (acc + x) :: masked_running_incl (acc + x) r
+  end.
+Definition masked_cdf_incl (w : list F) : list F :=
+  let c := masked_running_incl zero w in
+  let norm_inv := one / at_ c (length c - 1) in
+  map (fun v => v * norm_inv) c.
 End Model.
 
 (* ===========================================================================
